@@ -585,6 +585,18 @@ def run(ctx: Ctx):
         if ctx.time_left() < 0 and c["k"] not in ("dbfilter", "str"):
             ctx.count("skipped-over-budget")
             continue
-        check_case(ctx, c)
+        try:
+            check_case(ctx, c)
+        except (ValueError, KeyError, IndexError, TypeError, AssertionError, ZeroDivisionError) as ex:
+            # Every case of this check asks only for what the property quantifies over (non-zero 32-bit ids, the five spaces, valid
+            # subspaces; rejections are compared where they are expected).  An exception that comes out of the LIBRARY on such a
+            # request is a failing input, not a tool failure.
+            import traceback
+            tb = traceback.extract_tb(ex.__traceback__)
+            if not tb or "/tupimage/" not in tb[-1].filename:
+                raise
+            ctx.violation("the library raised on a request within the property's domain", c,
+                          {"exception": type(ex).__name__ + ": " + str(ex)[:200], "where": f"{tb[-1].filename.rsplit('/', 1)[-1]}:{tb[-1].lineno} {tb[-1].name}"},
+                          key="raised-in-domain:" + tb[-1].name)
         ctx.case(c, nontrivial=(c["k"] != "str"))
     ctx.assumptions += ["IDs outside the candidate planes of an enumerated subspace are checked individually, not enumerated"]
